@@ -26,10 +26,11 @@ def main():
             print(p.stdout[-2000:])
             bad += 1
     print("setup: parsed %d modules, %d problems" % (len(mods), bad))
-    if "--full" in sys.argv:
-        r = common.run_tlc("WordsCheck", "WordsCheck1.cfg", workers=common.NCPU, heap="4g", tag="wc1")
-        print("setup: WordsCheck NB=1:", "ok" if r.ok else "FAILED", r.distinct, "states")
-        bad += 0 if r.ok else 1
+    # smoke test of TLC and of the word library (8-bit, reduced operand set; --full: all 65,536 pairs)
+    cfg = "WordsCheck1.cfg" if "--full" in sys.argv else "WordsCheck1q.cfg"
+    r = common.run_tlc("WordsCheck", cfg, workers=common.NCPU, heap="4g", tag="wc1")
+    print("setup: WordsCheck NB=1 (%s):" % cfg, "ok" if r.ok else "FAILED", r.distinct, "states")
+    bad += 0 if r.ok else 1
     common.cleanup()
     sys.exit(1 if bad else 0)
 
